@@ -136,9 +136,12 @@ def model(cx, pairs):
 
 
 def tol_for(cond):
-    """the estimator forms (A^T A)^-1 explicitly: rounding errors grow like eps * cond(A)^2; 1e-14 * cond^2 keeps a
-    margin of about 45 eps cond^2 (calibrated: worst observed 5 eps cond^2 over seeds 0..9, see counters ratio_*), never below 1e-9"""
-    return 1e-9 * max(1.0, cond * cond / 1e5)
+    """the estimator forms (A^T A)^-1 explicitly: rounding errors grow like eps * cond(A)^2; 1e-13 * cond^2 keeps a
+    margin of 450 eps cond^2. (A tolerance of 45 eps cond^2 was tried after a seeded ridge term of 1e-12 had been missed; it
+    raised a false alarm on the unchanged tree - 133 eps cond^2 observed at VERIF_SEED=3 for a reversed Lueders instrument -
+    and was withdrawn: a ridge of that size is not distinguishable from the rounding of the explicit normal equations.)
+    Never below 1e-9; the counters ratio_* record how much of the allowance is used."""
+    return 1e-9 * max(1.0, cond * cond / 1e4)
 
 
 def normal_eq_residual(M, b, v, f):
@@ -154,7 +157,7 @@ def check_normal(out, seen, cx, qt, Aref, bref, cond, v, f, where, what):
         K.fail_once(out, seen, "estimated_var:shape:%s" % tag, "%s %s: shape %r, %d variables" % (where, what, v.shape, Aref.shape[1]))
         return False
     res = normal_eq_residual(Aref, bref, v, f)
-    if cond * cond > 1e5:
+    if cond * cond > 1e4:
         for thr in (0.03, 0.1, 0.3):
             if res > thr * tol_for(cond):
                 out.count("ratio_normal_eq_gt_%g" % thr)
@@ -378,7 +381,7 @@ def ex_exact(out, seen, cx, params):
             if r is None:
                 continue
             v = np.asarray(r.estimated_var, float)
-            if v.shape == v_true.shape and cond * cond > 1e5:
+            if v.shape == v_true.shape and cond * cond > 1e4:
                 for thr in (0.03, 0.1, 0.3):
                     if np.abs(v - v_true).max() > thr * tol:
                         out.count("ratio_exact_recovery_gt_%g" % thr)
